@@ -490,3 +490,16 @@ def c04_6(ctx: Ctx) -> RuleResult:
             res.add(f, r_.ast, "the returned weights passed `not any(weights > 0) -> raise TOO_FEW_REALIZATIONS`", ok, why, construct=f"{f.cls.name}.{f.name}: return guarded")
     res.floor = 1
     return res
+
+
+@rule(P)
+def c04_7(ctx: Ctx) -> RuleResult:
+    """Shared with C05.5: the value a realization is ranked by is the weighted sum of the chosen objectives."""
+    from .c05 import c05_5
+
+    r = c05_5(ctx)
+    r.instances = [i for i in r.instances if "cvar" in i.construct.lower()]
+    for i in r.instances:
+        i.rule = "C04.7"
+    r.rule, r.title, r.floor = "C04.7", "cvar-objective ranks by values[..., sort] . objective_weights[sort] (weights always applied when several objectives are configured)", 2
+    return r
